@@ -2,6 +2,8 @@
 import json
 
 import suite_q
+import suite_o
+import suite_k
 
 TRUSTED_BASE = [
     "Coq 8.16.1 kernel; vm_compute for Examples / refuted witnesses; no native_compute",
@@ -25,6 +27,42 @@ PROPS = {
               "non-trivial = at least two features or one constraint; distinct = distinct request text"),
         assumptions=["parent pointers of constructor-built models are the structural parents "
                      "(checked by comparing get_parent() of every feature with the model)"],
+    ),
+    "C13": dict(
+        props="Props/C13.v", tables=["core"],
+        suites=[suite_o.make_run("O-estimate", ["estimate"], with_ctcs=True, big=("star",), check_sem=True)],
+        rule=("suite O-estimate: FMEstimatedConfigurationsNumber on one re-used operation object vs the model's "
+              "[estimate]; all trees up to 4 (quick) / 6 (thorough) features x cardinalities, random models up to "
+              "11/13 features with logical constraints, [a..*] groups; an independent Python enumerator over all "
+              "2^n selections gives the exact counts (oracle) and also validates the model's [confs]/[valid] "
+              "(suite O-estimate-sem). non-trivial = at least two features"),
+        assumptions=["the Gallina semantics (Valid / confs / sem) is the intended reading of 'valid configuration'; "
+                     "it is compared with the independent Python enumerator on every model of at most 9 features"],
+    ),
+    "C14": dict(
+        props="Props/C14.v", tables=["core"],
+        suites=[suite_o.make_run("O-core", ["core"], with_ctcs=True, big=("star",), check_sem=True)],
+        rule=("suite O-core: FMCoreFeatures (re-used operation object) vs the model's [core_features] as multisets of "
+              "names; same streams as C13; oracle: brute-force always-selected set, soundness with constraints, "
+              "exactness without, once, root"),
+        assumptions=["core features compared as a multiset (the implementation's work-list order is not modelled)"],
+    ),
+    "C15": dict(
+        props="Props/C15.v", tables=["core"],
+        suites=[suite_o.make_run("O-atomic", ["atomic"], with_ctcs=True, big=("star",), check_sem=True)],
+        rule=("suite O-atomic: FMAtomicSets (re-used operation object) vs the model's [atomic_sets] (sets as sorted "
+              "name lists, list order kept); oracle: partition, co-selection over all valid configurations, "
+              "mandatory chains"),
+        assumptions=[],
+    ),
+    "C16": dict(
+        props="Props/C16.v", tables=["core"],
+        suites=[suite_o.make_run("O-tree", ["count_leafs", "leaf_features", "max_depth", "abf", "ancestors", "vps"],
+                                 with_ctcs=False, big=("large",), bf_limit=0)],
+        rule=("suite O-tree: the six tree-shape operations (re-used operation objects; ancestors for every feature) vs "
+              "the model; exhaustive small trees incl. the root-only model, random, large (up to 200 quick / 4000 "
+              "thorough features), deep chains, wide groups; oracle: the definitions computed directly on the spec tree"),
+        assumptions=["Python's round(x, 2) and float division are modelled bit-exactly in Z (Base/PyFloat.v) and compared on every case"],
     ),
 }
 
